@@ -52,13 +52,14 @@ package scheduler
 // application removal: asks (and with them reservations and pending) go first, the queue gives back the totals once,
 // then every allocation the application held is taken off the node that is found for it
 //@ func (pc *PartitionContext) removeApplication(appID string) (allocations []*objects.Allocation)
-//@   props C03 C09 C13
+//@   props C03 C09 C13 C11
 //@   sweep
 //@   mode nopanic=on
 //@   holds pc != nil
 //@   at[asks] call objects.Application.RemoveAllocationAsk#1: assert arg0 == app && arg1 == "" && app != nil
 //@   at[queue] call objects.Queue.RemoveApplication#1: assert arg0 == app.queue && arg1 == app
-//@   at[allgone] call objects.Application.RemoveAllAllocations#1: assert arg0 == app && ncalls(objects.Application.RemoveAllocationAsk) == 1 && (app.queue != nil ==> ncalls(objects.Queue.RemoveApplication) == 1)
+//@   at[allgone] call objects.Application.RemoveAllAllocations#1: assert arg0 == app && ncalls(objects.Application.RemoveAllocationAsk) == 1 && (old(app.queue) != nil ==> ncalls(objects.Queue.RemoveApplication) == 1)
+//@   at[stilllinked:C11,C03] call objects.Application.RemoveAllAllocations#1: assert app.queue == old(app.queue)
 //@   at[count] call scheduler.PartitionContext.updateAllocationCount#1: assert arg1 == 0 - len(allocations)
 //@   at[elems] call objects.Allocation.GetAllocationKey#1: assume arg0 != nil
 //@   at[nodealloc] call objects.Node.RemoveAllocation#1: assert arg0 == node && arg1 == alloc.allocationKey
@@ -286,6 +287,8 @@ package scheduler
 //@   at[validated] call configs.LoadSchedulerConfigFromByteArray#1 after: assume ret1 == nil ==> cfgvalidated(cc)
 //@   at[aftervalidation] call configs.SetConfigMap#1: assert cfgvalidated(cc)
 //@   at[applyvalidated] call scheduler.ClusterContext.updateSchedulerConfig#1: assert cfgvalidated(cc) && arg1 == conf
+//@   at[installedafterapply] call configs.SchedulerConfigContext.Set#1: assert arg2 == conf && ncalls(scheduler.ClusterContext.updateSchedulerConfig) == 1 && err == nil
+//@   ensures[oneanswer] nsends() == 1
 
 // ================================================================ C02: the root maximum is the sum of the registered node capacities
 
